@@ -309,6 +309,18 @@ func runSchedule(cs caseSpec, kv storage.KvStorage, forced []int, rnd *lib.Rand)
 			res.steps = append(res.steps, o)
 		}
 	}
+	// every thread first runs from its start to its first engine call: local work only (an Update on
+	// an uninitialised lock completes here), so the order is immaterial and not part of the schedule
+	for i := range threads {
+		p, fin := sched.Step(threads[i], 5*time.Second)
+		if p == "<blocked>" {
+			res.fail = fmt.Sprintf("thread %d blocked before its first engine call", i+1)
+		}
+		if fin {
+			done[i] = true
+		}
+		collect(i)
+	}
 	for step := 0; ; step++ {
 		var al []int
 		for i := range threads {
@@ -363,22 +375,22 @@ func stepCoq(o opObs) string {
 	case "get":
 		lab = lib.App("LGet", lib.N(uint64(o.Cand)), o.Env, tenvCoq(o))
 	case "create":
-		lab = lib.App("LCreate", lib.N(uint64(o.Cand)), lib.Str(o.Holder), lib.Bytes(o.Bytes), o.Env, tenvCoq(o))
+		lab = lib.App("LCreate", lib.N(uint64(o.Cand)), lib.ElBytes([]byte(o.Holder)), lib.ElBytes(o.Bytes), o.Env, tenvCoq(o))
 	case "update":
-		lab = lib.App("LUpdate", lib.N(uint64(o.Cand)), lib.Str(o.Holder), lib.Bytes(o.Bytes), o.Env, tenvCoq(o))
+		lab = lib.App("LUpdate", lib.N(uint64(o.Cand)), lib.ElBytes([]byte(o.Holder)), lib.ElBytes(o.Bytes), o.Env, tenvCoq(o))
 	}
-	return lib.App("mkStep", lab, o.Res, lib.Bool(o.TsoRead), lib.OptBytes(o.storedB, o.storedOK),
-		lib.Pair(lib.Str(o.descH), lib.N(o.descT)))
+	return lib.App("mkStep", lab, o.Res, lib.Bool(o.TsoRead), lib.ElOptBytes(o.storedB, o.storedOK),
+		lib.Pair(lib.ElBytes([]byte(o.descH)), lib.N(o.descT)))
 }
 
 func caseCoq(r runResult) string {
 	init := lib.None()
 	if r.initOK {
-		h := lib.Some(lib.Str(r.initDec))
+		h := lib.Some(lib.ElBytes([]byte(r.initDec)))
 		if r.initUnd {
 			h = lib.None()
 		}
-		init = lib.Some(lib.App("mkRec", lib.Bytes(r.initRec), h))
+		init = lib.Some(lib.App("mkRec", lib.ElBytes(r.initRec), h))
 	}
 	xs := make([]string, len(r.steps))
 	for i, o := range r.steps {
@@ -413,7 +425,7 @@ func main() {
 	args := lib.ParseArgs()
 	rnd := lib.NewRand(args.Seed)
 	mutant := os.Getenv("C14_SELFTEST")
-	w := lib.NewWriter(args, "C14", "c14", "From KB Require Import Model.C14Cases.", "c14_case", "c14_check", "c14_oracle", 600)
+	w := lib.NewWriter(args, "C14", "c14", "From Coq Require Import String.\nFrom KB Require Import Model.C14Cases.", "c14_case", "c14_check", "c14_oracle", 600)
 
 	engines := []string{lib.EngMem, lib.EngBadger, lib.EngTiKV}
 	maxBackends := 36
